@@ -141,6 +141,22 @@ def check(ctx, run):
 
     # ---------------- R3 ----------------------------------------------------
     plugin_chain_order(prog, run, "R3")
+    # the chain a test is handed is the registry's chain at that moment: a plugin installed (or all plugins reset) while a run is in
+    # progress - by a test body or a plugin action - is seen by the tests that follow
+    from .shared import registry_fold
+    rt_ = prog.fn("TestRegistry::runAllTests")
+    run.analysed(rt_)
+    for desc, during, want in (("a plugin installed while the first of three tests runs", {0: [("installPlugin", [71])]}, [70, 71, 71]),
+                               ("two plugins installed while the first and the second of three tests run", {0: [("installPlugin", [71])], 1: [("installPlugin", [72])]}, [70, 71, 72]),
+                               ("all plugins reset while the second of three tests runs", {1: [("resetPlugins", [])]}, [70, 70, 9000]),
+                               ("nothing changes", {}, [70, 70, 70])):
+        try:
+            log_, _ = registry_fold(prog, [("G", 1), ("G", 1), ("G", 1)], during=during)
+            got = [e_[2] for e_ in log_ if e_[0] == "runOneTest"]
+        except Unknown as u:
+            raise AnalysisBroken("C17.R3: the registry run cannot be folded with the plugin chain changing under it: %s" % u)
+        run.ob("R3", "runAllTests folded, %s: every test is handed the chain head the registry has when that test starts" % desc, rt_.site, got == want, witness={"handed": got, "chain heads": want},
+               what="" if got == want else "tests are handed %s, the registry's chain heads at those moments are %s: an installed plugin misses pre/post actions (or a removed one still gets them)" % (got, want))
     ip = prog.fn("TestRegistry::installPlugin")
     run.analysed(ip)
     TPINL = {g.qn for g in prog.functions.values() if g.qn.startswith("TestPlugin::")}
